@@ -2,7 +2,6 @@ package lcont
 
 import (
 	"bytes"
-	"crypto/sha256"
 	"encoding/hex"
 	"fmt"
 	"sort"
@@ -46,16 +45,16 @@ type ontSub struct {
 }
 
 type ontRun struct {
-	run     *kernel.Run
-	h       *e1.Harness
-	c       *ontChain
-	m       *ontModel
-	pending []*ontSub
-	sig     []byte
-	nAcc    int // accepted honest artefacts
-	nRejBad int // rejected faulty artefacts
+	run        *kernel.Run
+	h          *e1.Harness
+	c          *ontChain
+	m          *ontModel
+	pending    []*ontSub
+	sig        []byte
+	nAcc       int // accepted honest artefacts
+	nRejBad    int // rejected faulty artefacts
 	nTolerated int
-	stop    bool
+	stop       bool
 }
 
 func u32(v uint32) []byte { return utils.GetUint32Bytes(v) }
@@ -749,12 +748,4 @@ func (r *ontRun) checkWrites(t *e1.TxTrace, s *ontSub) {
 			run.Probe("ont_msg_write_attributed")
 		}
 	}
-}
-
-func digestOf(parts ...[]byte) []byte {
-	h := sha256.New()
-	for _, p := range parts {
-		h.Write(p)
-	}
-	return h.Sum(nil)
 }
